@@ -46,6 +46,18 @@ HOSTILE_KEYS = [
 ]
 
 
+BOMS = [b'\xef\xbb\xbf', b'\xff\xfe', b'\xfe\xff', b'\xff\xfe\x00\x00',
+        b'\x00\x00\xfe\xff']
+HOSTILE_CONTENT = BOMS + [b + b'\n' for b in BOMS] + \
+    [b + b'{}\n' for b in BOMS] + [
+    b'\n', b'\r\n', b'\r', b' ', b'    ', b'    \n', b'\x00', b'\x00\n',
+    b'{', b'{}', b'[]\n', b'null\n', b'"s"\n', b'5\n', b'\xff\n',
+    b'\n\x00', b'\x00\n\x00', b'\n\x00\x00\x00', b'\x25', b'{}\x25',
+    b'\r\n\r\n', b'\n\n', b'a', b'a\r', b'\xef\xbb\xbf\xef\xbb\xbf\n',
+    b'#diffx: version=1.0\n', b'#.change:\n',
+]
+
+
 def corpus_files(small=False):
     out = []
     pats = [os.path.join(VERIF, 'corpus', '*.diff')]
@@ -91,7 +103,8 @@ def corrupted(draw):
              'option-add', 'byte-flip', 'byte-insert', 'byte-delete',
              'range-delete', 'line-delete', 'line-dup', 'cr-insert',
              'truncate', 'header-newline', 'container-attr',
-             'container-attr']))
+             'container-attr', 'content-replace', 'content-replace',
+             'long-run', 'blank-run']))
         headers = [m for m in re.finditer(rb'(?m)^#\.{0,3}[a-z]+:[^\n]*\n',
                                           bytes(data))]
 
@@ -140,6 +153,41 @@ def corrupted(draw):
                 tail = line[len(body):]
                 sep = b' ' if body.endswith(b':') else b', '
                 data[m.start():m.end()] = body + sep + k + b'=' + v + tail
+        elif kind == 'content-replace':
+            # hostile content with a matching length option
+            recs, perr = spec.ref_parse(bytes(data))
+            content = [r for r in recs if r['kind'] != 'container']
+
+            if content:
+                r = draw(hs.sampled_from(content))
+                new = draw(hs.sampled_from(HOSTILE_CONTENT))
+                hs_, cs, ce = r['span']
+                header = re.sub(rb'length=[0-9]+',
+                                b'length=%d' % len(new), bytes(data[hs_:cs]))
+                data[hs_:ce] = header + new
+        elif kind == 'long-run':
+            n = draw(hs.sampled_from([95, 96, 97, 4095, 4096, 4097, 8192,
+                                      65536]))
+            run = draw(hs.sampled_from([b'x', b'#', b' ', b'a=b, ',
+                                        b'\x00'])) * n
+            run = run[:n]
+            where = draw(hs.sampled_from(['start', 'header', 'header-end',
+                                          'anywhere']))
+
+            if where == 'start' or not headers:
+                data[0:0] = run
+            elif where == 'anywhere':
+                i = draw(hs.integers(0, len(data)))
+                data[i:i] = run
+            else:
+                m = draw(hs.sampled_from(headers))
+                i = m.start() if where == 'header' else m.end() - 1
+                data[i:i] = run
+        elif kind == 'blank-run' and headers:
+            m = draw(hs.sampled_from(headers))
+            n = draw(hs.sampled_from([47, 48, 49, 95, 96, 97, 200, 1000]))
+            data[m.start():m.start()] = draw(hs.sampled_from(
+                [b'\n', b'\r\n', b' \n'])) * n
         elif kind == 'byte-flip' and data:
             i = draw(hs.integers(0, len(data) - 1))
             data[i] = draw(hs.integers(0, 255))
@@ -210,7 +258,15 @@ def random_bytes(draw):
 
     toks = draw(hs.lists(hs.one_of(hs.sampled_from(TOKENS),
                                    hs.binary(max_size=6)), max_size=40))
-    return {'data': b''.join(toks)}
+    data = b''.join(toks)
+
+    if draw(hs.integers(0, 5)) == 0:
+        # a very long first line / run without any newline
+        n = draw(hs.sampled_from([96, 4095, 4096, 4097, 8192, 70000]))
+        data = draw(hs.sampled_from([b'x', b'#', b'#diffx: a=', b' '])) * n \
+            + data
+
+    return {'data': data}
 
 
 def line_bound(data):
@@ -224,6 +280,14 @@ def judge(data, st, case):
 
     # 1. streaming reader
     recs, err = sut.read_records(data)
+
+    bad = spec.illegal_step([r.get('section') for r in recs])
+
+    if bad is not None:
+        st.violation('reader:yielded-sections-in-illegal-order',
+                     'sections %r' % ([r.get('section')
+                                       for r in recs[max(0, bad - 2):bad + 1]],),
+                     case)
 
     if isinstance(err, sut.ReadBudgetExceeded):
         st.violation('reader:no-termination',
